@@ -66,9 +66,21 @@ func (s *Server) Write(ctx context.Context, req *openfgav1.WriteRequest) (*openf
 	// apple to apple.
 	writeDurationHistogram.WithLabelValues(
 		strconv.FormatBool(s.IsAccessControlEnabled() && !authclaims.SkipAuthzCheckFromContext(ctx)),
-		req.GetWrites().GetOnDuplicate(),
-		req.GetDeletes().GetOnMissing(),
+		writeOptionLabel(req.GetWrites().GetOnDuplicate()),
+		writeOptionLabel(req.GetDeletes().GetOnMissing()),
 	).Observe(float64(time.Since(start).Milliseconds()))
 
 	return resp, err
+}
+
+// writeOptionLabel maps a client-supplied on_duplicate / on_missing option to a metric label value.
+// The raw string must not be used: every distinct (possibly rejected, arbitrarily long, or not valid
+// UTF-8) value would create a histogram series that is never released.
+func writeOptionLabel(option string) string {
+	switch option {
+	case "", "error", "ignore":
+		return option
+	default:
+		return "invalid"
+	}
 }
